@@ -262,7 +262,21 @@ func c06Program(p *prog, steps int) {
 			p.expect(p.failed || any(ret) == o.Real, "Set-return", "the receiver", "another value")
 		case op < 26: // Set with an odd argument count: panics, nothing applied
 			args := []any{pickKey(), 1, pickKey()}
-			p.step("Set-odd", fmt.Sprintf("%s.Set(%q, 1, %q) [odd count]", o.Name(), args[0], args[2]), true, func() { real.Set(args...) })
+			desc := fmt.Sprintf("%s.Set(%q, 1, %q) [odd count]", o.Name(), args[0], args[2])
+			switch r.Intn(6) {
+			case 0: // a lone argument of every shape, also ones that look like a bundle of pairs
+				lone := []any{pickKey(), map[string]any{"b": 2, "a": "x"}, map[string]int{"n": 1}, []any{"k", 1}, []string{"k", "v"}, 1, nil, at.NewObject("k", 1), map[string]any{}}[r.Intn(9)]
+				args = []any{lone}
+				desc = fmt.Sprintf("%s.Set(%T %v) [one argument]", o.Name(), lone, lone)
+				p.c.Count("set_with_one_argument")
+			case 1:
+				args = []any{pickKey(), 1, pickKey(), 2, pickKey()}
+				desc = fmt.Sprintf("%s.Set(5 arguments) [odd count]", o.Name())
+			case 2: // odd count whose last argument is a map / slice
+				args = []any{pickKey(), 1, map[string]any{"z": 1}}
+				desc = fmt.Sprintf("%s.Set(%q, 1, map[z:1]) [odd count]", o.Name(), args[0])
+			}
+			p.step("Set-odd", desc, true, func() { real.Set(args...) })
 		case op < 30: // Set with a non-string key at pair k: panics; any applied prefix of the pairs is accepted
 			k0, v0 := pickKey(), scalarVal(r)
 			bad := []any{1, 2.5, nil, true, []byte("k")}[r.Intn(5)]
